@@ -190,8 +190,25 @@ def run(pid, tier, seed):
         # two sinks in two directories, each on its own thread, compressing at the same moment
         twins = [R.Twin(5000 + i, rnd, tier != "quick" and i % 4 == 0) for i in range(6 if tier == "quick" else 60)]
         executed3 = R.execute_twins(bdir, twins, work, f"t{seed}")
+    executed4 = []
+    acc4, fail4 = 0, []
+    if pid == "C05":
+        # "whatever the sequence of ... restarts and rotation options": restarts that change the options
+        rc = [R.gen_reconfigured(rnd, 7000 + i) for i in range(40 if tier == "quick" else 800)]
+        executed4 = R.execute(bdir, rc, work, f"r{seed}")
+        acc4, fail4 = C.validate_runs("Trace_Rotation", "Trace_Rotation_reconf.cfg", [e for (_, e, _) in executed4], work, f"rv{seed}",
+                                      chunk=120, timeout=1800)
     everything = executed + executed2 + executed3
     accepted, failures, viol = validate(pid, everything, work, f"v{seed}", seed)
+    for f in fail4:
+        s4 = executed4[f["run_index"]][0]
+        rp = C.save_replay(pid, f"reconf_{seed}_{s4.id}.json",
+                           {"kind": "trace-rejected", "violated": f.get("violation"), "scenario": s4.to_dict(),
+                            "matched_in_run": f["matched_in_run"], "rejected_event": f["event"], "tlc": f["tlc_tail"]})
+        C.report_violation(pid, rp)
+        viol += 1
+    accepted += acc4
+    everything = everything + executed4
 
     nt = sum(1 for (s, _, info) in everything if nontrivial(pid, s, info))
     tot = lambda k: sum(info[k] for (_, _, info) in everything)
